@@ -30,6 +30,26 @@ def run(ctx):
     lc = Lifecycle(repo)
 
     r1 = ctx.rule("C07.1", "non-idempotent effects of the exec handler happen at most once per job, also across wait-queue re-entry", floor=4)
+    # a job that has to wait for limits re-enters the handler later with what was queued: that must be exactly what it arrived with, not the
+    # arguments after this entry's preprocessing (forked handles, filled-in JobInfo) -- otherwise its recorded arguments depend on having waited
+    exh = m.func(lc.EXEC)
+    if len(exh.args.args) < 3:
+        raise AnalysisError("exec handler: (self, job, eval_args) signature changed", lc.EXEC)
+    evp = exh.args.args[2].arg
+    rebound = [n for n in ast.walk(exh) if isinstance(n, (ast.Assign, ast.AugAssign, ast.AnnAssign)) and any(isinstance(x, ast.Name) and x.id == evp for t in (n.targets if isinstance(n, ast.Assign) else [n.target]) for x in ast.walk(t) if not isinstance(t, ast.Attribute))]
+    rq = [c for c in calls_in(exh) if call_name(c) == "self._add_job_pending_limits"]
+    if not rq:
+        raise AnalysisError("exec handler: self._add_job_pending_limits(...) not found", lc.EXEC)
+    for c in rq:
+        ok = len(c.args) == 2 and src(c.args[1]) == evp and not rebound
+        r1.check(
+            ok,
+            f"{m.rel}:{lc.EXEC}:requeue-arguments",
+            f"`{src(c)}` queues the waiting job with something other than the unchanged `{evp}` it arrived with: on re-entry the already preprocessed arguments become job.eval_args, "
+            "so what is recorded for a job (argument value hashes) depends on whether it had to wait for a resource limit",
+            m.rel,
+            c.lineno,
+        )
     results = lc.explore()
     ctx.paths_enumerated = len(results)
     seen_ok = 0
